@@ -14,8 +14,13 @@
 (*     handle_lease     : new DefinedLease(n, ttl) stamped `now`; then      *)
 (*                        while queue not empty and allowed: release head   *)
 (*                                                                         *)
+(*   rsocket_client.py connect() (every reconnect): _reset_internals again  *)
+(*                        => a NEW zero lease and a NEW, empty request      *)
+(*                        queue; what was held back fails with the old      *)
+(*                        connection (stop_all_streams)                     *)
+(*                                                                         *)
 (* One action per critical section: Request, LeaseArrives (replace +       *)
-(* release loop, atomic: no await inside), Tick (time passes).             *)
+(* release loop, atomic: no await inside), Tick (time passes), Reconnect.  *)
 (* The clauses of C14 are stated over the history `sent`.                  *)
 (***************************************************************************)
 EXTENDS Naturals, Sequences, FiniteSets, TLC
@@ -25,6 +30,7 @@ CONSTANTS MaxReq,      \* requests the application makes
           MaxLeases,   \* LEASE frames that arrive
           MaxClock,    \* time horizon
           QSize,       \* capacity of the request queue (0 = unbounded)
+          MaxReconnects, \* times the client reconnects (a lease belongs to the connection it arrived on)
           AppActsOnHeld \* BOOLEAN: the application cancels / requests more on interactions whose request is still held back
 
 VARIABLES now,
@@ -34,13 +40,16 @@ VARIABLES now,
           refused,     \* request ids whose call raised QueueFull
           nextRid,
           leases,      \* history: epoch -> [max, ttl, at]
+          conn,        \* number of reconnects so far
+          dropped,     \* request ids that were held back when their connection ended (they fail with it)
           early        \* request ids whose CANCEL / REQUEST_N entered the send queue BEFORE their request frame (finding F27)
-vars == <<now, lease, pending, sent, refused, nextRid, leases, early>>
+vars == <<now, lease, pending, sent, refused, nextRid, leases, conn, dropped, early>>
 
 Init == /\ now = 0
         /\ lease = [max |-> 0, ttl |-> MaxClock + 1, at |-> 0, ctr |-> 0, epoch |-> 0]
         /\ pending = <<>> /\ sent = <<>> /\ refused = {} /\ nextRid = 1
         /\ leases = <<>>
+        /\ conn = 0 /\ dropped = {}
         /\ early = {}
 
 Expired(l) == l.at + l.ttl <= now
@@ -59,7 +68,7 @@ Request ==
                   THEN /\ refused' = refused \cup {nextRid} /\ UNCHANGED <<pending, sent>>
                   ELSE /\ pending' = Append(pending, nextRid) /\ UNCHANGED <<sent, refused>>
     /\ nextRid' = nextRid + 1
-    /\ UNCHANGED <<now, leases, early>>
+    /\ UNCHANGED <<now, leases, conn, dropped, early>>
 
 (* the release loop of handle_lease: (lease, pending, sent) -> fixpoint *)
 RECURSIVE Release(_, _, _)
@@ -75,10 +84,20 @@ LeaseArrives(g) ==
            r == Release(l0, pending, sent)
        IN /\ lease' = r[1] /\ pending' = r[2] /\ sent' = r[3]
           /\ leases' = Append(leases, [max |-> g[1], ttl |-> g[2], at |-> now])
-    /\ UNCHANGED <<now, refused, nextRid, early>>
+    /\ UNCHANGED <<now, refused, nextRid, conn, dropped, early>>
 
 Tick == /\ now < MaxClock /\ now' = now + 1
-        /\ UNCHANGED <<lease, pending, sent, refused, nextRid, leases, early>>
+        /\ UNCHANGED <<lease, pending, sent, refused, nextRid, leases, conn, dropped, early>>
+
+(* connect() of a reconnect: the lease of the previous connection does not carry over - the new connection starts with the zero
+   lease (epoch 0: nothing may be sent under it) and an empty request queue *)
+Reconnect ==
+    /\ conn < MaxReconnects
+    /\ conn' = conn + 1
+    /\ lease' = [max |-> 0, ttl |-> MaxClock + 1, at |-> now, ctr |-> 0, epoch |-> 0]
+    /\ dropped' = dropped \cup {pending[i] : i \in 1..Len(pending)}
+    /\ pending' = <<>>
+    /\ UNCHANGED <<now, sent, refused, nextRid, leases, early>>
 
 (* AS IMPLEMENTED (open finding F27): StreamHandler.send_cancel / send_request_n call send_frame, which puts the frame into the
    send queue at once - also when the stream's own request frame is still waiting for a lease in the request queue.  The frame
@@ -87,9 +106,9 @@ AppActsOnHeldRequest(r) ==
     /\ AppActsOnHeld
     /\ \E i \in 1..Len(pending) : pending[i] = r
     /\ early' = early \cup {r}
-    /\ UNCHANGED <<now, lease, pending, sent, refused, nextRid, leases>>
+    /\ UNCHANGED <<now, lease, pending, sent, refused, nextRid, leases, conn, dropped>>
 
-Next == Request \/ (\E g \in Grants : LeaseArrives(g)) \/ Tick \/ (\E r \in 1..MaxReq : AppActsOnHeldRequest(r))
+Next == Request \/ (\E g \in Grants : LeaseArrives(g)) \/ Tick \/ Reconnect \/ (\E r \in 1..MaxReq : AppActsOnHeldRequest(r))
 Spec == Init /\ [][Next]_vars
 
 ----------------------------------------------------------------------------
@@ -103,7 +122,7 @@ FifoOnce == /\ \A i, j \in 1..Len(sent) : i < j => Rids[i] < Rids[j]
             /\ \A i \in 1..Len(pending) : \A j \in 1..Len(sent) : Rids[j] < pending[i]
             /\ \A i, j \in 1..Len(pending) : i < j => pending[i] < pending[j]
 (* nothing is lost: every request made is sent, pending or was refused (queue full) *)
-Accounted == \A r \in 1..(nextRid - 1) : (\E i \in 1..Len(sent) : Rids[i] = r) \/ (\E i \in 1..Len(pending) : pending[i] = r) \/ r \in refused
+Accounted == \A r \in 1..(nextRid - 1) : (\E i \in 1..Len(sent) : Rids[i] = r) \/ (\E i \in 1..Len(pending) : pending[i] = r) \/ r \in refused \/ r \in dropped
 RetainedUpToQueueSize == /\ (QSize > 0 => Len(pending) <= QSize)
                          /\ (QSize = 0 => refused = {})
 (* a request waits only while the current lease cannot take it: after LeaseArrives either nothing waits or the lease is used up / expired *)
@@ -117,5 +136,6 @@ GrantsWide == {<<0, 1>>, <<1, 1>>, <<1, 3>>, <<2, 2>>, <<3, 1>>, <<4, 4>>}
 NothingOvertakesItsRequest == early = {}
 
 TypeOK == /\ now \in 0..MaxClock /\ nextRid \in 1..(MaxReq + 1)
-          /\ lease.epoch = Len(leases)
+          /\ lease.epoch \in {0, Len(leases)}
+          /\ (conn = 0 => lease.epoch = Len(leases))
 =============================================================================
